@@ -184,6 +184,12 @@ Theorem C08_text_roundtrip_arr : forall (enc : str -> option bytes) (dec : bytes
 Proof. exact text_roundtrip_arr. Qed.
 Print Assumptions C08_text_roundtrip_arr.
 
+(* the empty array (no hypothesis on the codec): stored as an empty vlen dataset, read back as an empty text array *)
+Theorem C08_text_empty_array_roundtrip : forall (enc : str -> option bytes) (dec : bytes -> option str) w a n,
+  run_text enc dec w a n (TArrU []) = TODone (TVArrU []) (RTVlen []) (TVArrU []).
+Proof. exact text_empty_array_roundtrip. Qed.
+Print Assumptions C08_text_empty_array_roundtrip.
+
 Theorem C08_text_roundtrip_bytes : forall (enc : str -> option bytes) (dec : bytes -> option str),
   (forall s b, enc s = Some b -> dec b = Some s) ->
   forall w a n b s b', dec b = Some s -> enc s = Some b' -> has_nul b' = false ->
